@@ -1,4 +1,7 @@
 import Tumfl.Theory.Resolve
+import Tumfl.Theory.ResolveTermExamples
+import Tumfl.Theory.ResolveTermMono
+import Tumfl.Theory.PrintInlined
 /-!
 # C04  require() inlining yields a complete program   /   C12  uninlinable requires raise InvalidDependencyError
 
@@ -58,5 +61,41 @@ theorem C12_errors (fs : FS) (main : Path) (sp : List Path) (fuel : Nat) (e : Py
     (∃ m t, e = .dependency m t) ∨ (∃ p text, fs.read p = some text ∧ parseText text = .error e) ∨
     (e = .py "FileNotFoundError" "dependency_resolver._parse_file" ∧ fs.read main = none) ∨ e = .fuel :=
   resolveRecursive_error fs main sp fuel e h
+
+/-! ## termination (C04: acyclic trees; C12: statement-level cycles terminate) -/
+
+/-- if the EXPRESSION-level require edges between files admit a rank function (are acyclic), resolution terminates for every main file and
+search path, whatever the statement-level requires do - cycles included - with an explicit bound on the recursion depth:
+(files + 1) * (max rank + 1) * (max depth of a parsed file).  The outcome is the same for every sufficient fuel (`C04_outcome_unique`). -/
+theorem C04_terminates {fs : FS} {sp : List Path} {rank : Path → Nat} (hrank : ∀ p q, ExprEdge fs sp p q → rank q < rank p) (main : Path) (fuel : Nat)
+    (hf : resolveFuel fs rank ≤ fuel) : resolveRecursive fs main sp fuel ≠ .error .fuel :=
+  resolveRecursive_no_fuel hrank main fuel hf
+
+theorem C04_outcome_unique {fs : FS} {sp : List Path} {rank : Path → Nat} (hrank : ∀ p q, ExprEdge fs sp p q → rank q < rank p) (main : Path) :
+    ∃ res, res ≠ .error .fuel ∧ ∀ fuel, resolveFuel fs rank ≤ fuel → resolveRecursive fs main sp fuel = res :=
+  resolveRecursive_outcome hrank main
+
+/-- statement-level cycles of any length are harmless: without expression-level requires resolution always terminates -/
+theorem C12_stmt_cycles_terminate {fs : FS} {sp : List Path} (hno : ∀ p q, ¬ ExprEdge fs sp p q) (main : Path) (fuel : Nat)
+    (hf : (fs.files.length + 1) * maxFileDepth fs ≤ fuel) : resolveRecursive fs main sp fuel ≠ .error .fuel :=
+  resolveRecursive_no_fuel_stmt_only hno main fuel hf
+
+/-- a two-file statement-level cycle resolves (`a.lua: require("b")`, `b.lua: require("a")`) -/
+theorem C12_cycle_example : isOk (resolveRecursive stmtCycleFS ["a.lua"] [] 20) = true := stmtCycle_ok
+
+/-- an expression-level self-require never terminates (Python: RecursionError) - outside the quantifier, shown for contrast -/
+theorem C04_expr_cycle_diverges : ∀ n, resolveRecursive exprCycleFS ["a.lua"] [] n = .error .fuel := exprCycle_always_fuel
+
+/-! ## the result of resolution formats to valid Lua (C04, last clause), token level, emitter before fix 32 -/
+
+/-- the pieces emitted for a resolved tree - under any style - read as a valid chunk whose tree is the tree with every inlined chunk spliced
+into the enclosing statement list, provided no spliced file has a top-level return (K4) and `okBlock` holds: no empty spliced file under
+`keepSemicolon`, and - for the emitter BEFORE fix 32 - no spliced file that is not first in its list and begins with a comment followed by a
+statement starting with `(` (the defect repaired by fix 32; `Props/EmitI.lean` removes that clause for the repaired emitter) -/
+theorem C04_formats_valid (fs : FS) (main : Path) (sp : List Path) (fuel : Nat) (b : Block)
+    (h : resolveRecursive fs main sp fuel = .ok b) (hk4 : noSplicedReturn b = true) (sty : Style)
+    (hok : okBlock sty.keepSemicolon sty.includeComments b = true) (ks : List Spec.Tk) (hks : ReadTks (emit sty b) ks) :
+    ∃ c, Spec.parseToks (toToks ks) = .ok c ∧ BlockRel (dropSemis (flattenChunks b)) (dropEmpty c) :=
+  resolve_then_emit_valid_of_check fs main sp fuel b h hk4 sty hok ks hks
 
 end Tumfl.Props
